@@ -533,6 +533,16 @@ def serial_loss_exception():
     return serial.SerialException("device reports readiness to read but returned no data (device disconnected?)")
 
 
+def stalled(stats, acc, w, what=""):
+    """A session in which one loop iteration did not return for vloop.STALL_SECONDS of wall clock: the client code
+    monopolised the event loop. Returns True when that was the case (and has been reported)."""
+    if stats.get("error") == "loop-step-stalled":
+        acc.violation("event-loop-monopolised", f"{what}: one event-loop iteration did not finish within {vloop.STALL_SECONDS:.0f} s of wall clock "
+                      f"(code running in it was interrupted): other tasks could not run", w)
+        return True
+    return False
+
+
 def judge_bystander(sim, acc, w):
     """The untouched second client: connected once, on one link that is still open, both of its frames delivered."""
     b = getattr(sim, "bystander", None)
